@@ -240,10 +240,13 @@ func c07(c *wk.Ctx) {
 		})
 	})
 
-	// IDL text: valid generated IDL cut anywhere, ending in the beginning of a comment
+	// IDL text: valid generated IDL cut anywhere, ending in the beginning of a comment; package declarations with unusual names
 	c.Cases("idltext", c.Pick(3000, 100000), func(i int, rng *rand.Rand) {
-		text := cutIDL(rng)
-		hostile(c, "idltext", i, "idl.ParsePackage", "cut-valid-idl", []byte(text), func(b []byte) error { _, err := idl.ParsePackage(b); return err })
+		text, class := cutIDL(rng), "cut-valid-idl"
+		if i%4 == 3 {
+			text, class = pkgNameIDL(rng), "package-names"
+		}
+		hostile(c, "idltext", i, "idl.ParsePackage", class, []byte(text), func(b []byte) error { _, err := idl.ParsePackage(b); return err })
 	})
 
 	// hostile signatures carried by dynamic values
